@@ -40,9 +40,13 @@ impl Run {
             .truncate(true)
             .create(true)
             .open(&self.path)?;
+        #[cfg(pnordahl_monorail_verif)]
+        crate::verif::point("ptr.truncated", "");
 
         let data = serde_json::to_vec(self)?;
         file.write_all(&data)?;
+        #[cfg(pnordahl_monorail_verif)]
+        crate::verif::point("ptr.written", "");
         Ok(())
     }
 }
@@ -82,10 +86,14 @@ impl Checkpoint {
             .truncate(true)
             .create(true)
             .open(&self.path)?;
+        #[cfg(pnordahl_monorail_verif)]
+        crate::verif::point("cp.truncated", "");
         let bw = io::BufWriter::new(file);
         let mut encoder = zstd::stream::write::Encoder::new(bw, 3)?;
         serde_json::to_writer(&mut encoder, self)?;
         encoder.finish()?;
+        #[cfg(pnordahl_monorail_verif)]
+        crate::verif::point("cp.written", "");
         Ok(())
     }
 }
